@@ -11,6 +11,7 @@ import (
 	"encoding/json"
 	"fmt"
 	"io"
+	"os"
 	"strings"
 	"testing"
 	"time"
@@ -226,7 +227,7 @@ func check(c Case) error {
 			k = ref.Len()
 		}
 		w := &fw.FailAt{K: k, Err: fw.ErrOf(c.ErrKind)}
-		err := p.Run(ctx, c.Entry, w)
+		err := p.Run(ctx, c.Entry, stringWriter(c.Dest, w))
 		if k < ref.Len() {
 			if err == nil {
 				return fmt.Errorf("%s/%s: destination writer failed after %d of %d bytes (in write call %d) but render returned nil", c.Prog, c.Entry, k, ref.Len(), w.Writes)
@@ -255,11 +256,11 @@ func check(c Case) error {
 		var got []byte
 		if c.Mode == "failnth" {
 			w := &fw.FailNth{N: c.K}
-			err = p.Run(ctx, c.Entry, w)
+			err = p.Run(ctx, c.Entry, stringWriter(c.Dest, w))
 			failed, got = w.Failed, w.Got
 		} else {
 			w := &fw.RefuseLarge{Max: c.K}
-			err = p.Run(ctx, c.Entry, w)
+			err = p.Run(ctx, c.Entry, stringWriter(c.Dest, w))
 			failed, got = w.Failed, w.Got
 		}
 		if failed && err == nil {
@@ -272,6 +273,22 @@ func check(c Case) error {
 			if !bytes.Equal(got, ref.Bytes()) {
 				return fmt.Errorf("%s/%s: render returned nil but the writer got %d bytes, reference has %d", c.Prog, c.Entry, len(got), ref.Len())
 			}
+		}
+		return nil
+	case "closedfile":
+		// a real *os.File that has been closed: every write fails with os.ErrClosed
+		if p.Fails {
+			return nil
+		}
+		f, err := os.CreateTemp("", "c12-closed-*")
+		if err != nil {
+			return nil
+		}
+		name := f.Name()
+		f.Close()
+		defer os.Remove(name)
+		if err := p.Run(ctx, c.Entry, f); err == nil {
+			return fmt.Errorf("%s/%s: the destination *os.File was closed (every write fails) but render returned nil", c.Prog, c.Entry)
 		}
 		return nil
 	case "cancelmid":
@@ -321,6 +338,16 @@ func check(c Case) error {
 		return nil
 	}
 	return fmt.Errorf("unknown mode %q", c.Mode)
+}
+
+// stringWriter gives a failing destination a WriteString method of its own when the case asks for
+// it (Dest "sw"): *os.File, *bufio.Writer and most http.ResponseWriters have one, and
+// io.WriteString calls it instead of Write.
+func stringWriter(dest string, w io.Writer) io.Writer {
+	if dest == "sw" {
+		return fw.SW{W: w}
+	}
+	return w
 }
 
 // sink is the destination writer of a case together with a way to read what reached it.
@@ -444,6 +471,9 @@ func classify(c Case) (bool, []string) {
 	if c.Dest != "" && c.Mode != "failat" && c.Mode != "failnth" && c.Mode != "refuse" {
 		cls = append(cls, "dest="+c.Dest)
 	}
+	if c.Dest == "sw" && (c.Mode == "failat" || c.Mode == "failnth" || c.Mode == "refuse") {
+		cls = append(cls, "failing-writer-with-WriteString")
+	}
 	if c.InjectFile != "" {
 		cls = append(cls, "injected-failure")
 		if c.InjectFile != "page.vuego" {
@@ -492,6 +522,7 @@ func TestProp(t *testing.T) {
 				}
 			}
 			each(Case{Prog: p.Name, Entry: e, Mode: "cancel"})
+			each(Case{Prog: p.Name, Entry: e, Mode: "closedfile"})
 			each(Case{Prog: p.Name, Entry: e, Mode: "deadline", K: 0})
 			each(Case{Prog: p.Name, Entry: e, Mode: "deadline", K: 1})
 			if p.Fails {
@@ -523,6 +554,9 @@ func TestProp(t *testing.T) {
 					continue
 				}
 				each(Case{Prog: p.Name, Entry: e, Mode: "failat", K: k})
+				if k%3 == 0 || k >= ref.Len()-2 {
+					each(Case{Prog: p.Name, Entry: e, Mode: "failat", K: k, Dest: "sw"})
+				}
 			}
 			// transient failures: every single write call failing once; size limits
 			cw := &fw.Capture{}
@@ -595,6 +629,9 @@ func TestProp(t *testing.T) {
 		c := Case{Prog: rapid.SampledFrom(names).Draw(t, "prog"), Entry: rapid.SampledFrom(cat.Entries).Draw(t, "entry"), Mode: rapid.SampledFrom([]string{"ref", "failat", "cancel", "deadline", "failnth", "refuse", "cancelmid", "procfail"}).Draw(t, "mode")}
 		c.K = rapid.IntRange(0, 700).Draw(t, "k")
 		c.Dest = rapid.SampledFrom(dests).Draw(t, "dest")
+		if (c.Mode == "failat" || c.Mode == "failnth" || c.Mode == "refuse") && rapid.Bool().Draw(t, "sw") {
+			c.Dest = "sw"
+		}
 		if c.Mode == "failat" && rapid.Bool().Draw(t, "errkind?") {
 			c.ErrKind = rapid.SampledFrom(fw.ErrKinds).Draw(t, "errkind")
 		}
